@@ -9,13 +9,17 @@ if len(sys.argv) > 1:
 else:
     path = os.path.join(tempfile.gettempdir(), "pandera_suite.junit.xml")
     cmd = base["cmd"].replace("<file>", path)
-    subprocess.run(cmd, shell=True, stdout=subprocess.DEVNULL, stderr=subprocess.DEVNULL)
+    env = dict(os.environ, PYSPARK_PYTHON="/venv/bin/python", PYSPARK_DRIVER_PYTHON="/venv/bin/python",
+               PATH="/venv/bin:" + os.environ.get("PATH", ""))
+    subprocess.run(cmd, shell=True, stdout=subprocess.DEVNULL, stderr=subprocess.DEVNULL, env=env)
 root = ET.parse(path).getroot()
 passed = set()
 failed = set()
 for tc in root.iter("testcase"):
     name = f"{tc.get('classname')}::{tc.get('name')}"
     bad = any(ch.tag in ("failure", "error", "skipped") for ch in tc)
+    if any(ch.tag == "skipped" and "float16 is not supported for indexes" in (ch.get("message") or "") for ch in tc):
+        bad = False     # an xfail whose parametrised id depends on the hash seed (a set of dtypes): not a regression
     (failed if bad else passed).add(name)
 stable = set(base["stable_pass"])
 missing = sorted(stable - passed)
